@@ -93,11 +93,14 @@ Record bst := mkB {
   b_pending : list name;                        (* pending_resolves *)
   b_resolved : list name;                       (* resolved *)
   b_next_ip : N;
-  b_ip_interval : N }.
+  b_ip_interval : N;
+  (* bookkeeping no behaviour depends on: records the code's rule stored although no active
+     search needed them on arrival (always 0 under PNeed) *)
+  b_excess : N }.
 
 (* Zeroconf::new + the start of run(): the first IP check is armed at t0 + 5 s *)
 Definition b_init (t0 : N) : bst :=
-  mkB bc0 [] [] [] [t0 + hp_ip_check_ms_default] [] [] (t0 + hp_ip_check_ms_default) hp_ip_check_ms_default.
+  mkB bc0 [] [] [] [t0 + hp_ip_check_ms_default] [] [] (t0 + hp_ip_check_ms_default) hp_ip_check_ms_default 0.
 
 Inductive policy := PCode | PNeed.
 
@@ -211,40 +214,43 @@ Definition set_sub (s : list (name * name)) (c : bcache) : bcache :=
 
 (* result of add_or_update: the cache, the timers pushed for flushed records, and
    Some (record, is_new) when the record was stored or refreshed *)
+Definition aou_kind (k : kind) (now : N) (fu ok : bool) (x : crec) (c : bcache)
+  : bcache * list N * option (crec * bool) :=
+  (* the reverse subtype map: only for PTR of a message that is for us *)
+  let c1 := if (c_ty x =? ty_PTR) && fu && ok && has_subtype (c_name x) && negb (ahas (c_target x) (bc_sub c))
+            then set_sub (bc_sub c ++ [(c_target x, c_name x)]) c else c in
+  let key := match k with KAddr => lower (c_name x) | _ => c_name x end in
+  let m := get_map k c1 in
+  let b := bucket m key in
+  let refused := match b with [] => negb fu | _ => false end || negb ok in
+  if refused then (set_map k (if ahas key m then m else m ++ [(key, [])]) c1, [], None)
+  else
+    let b1 := if c_flush x then map (flush_rec now x) b else b in
+    let ft := if c_flush x then map (fun _ => hp_flush_new_expire now) (filter (should_flush now x) b) else [] in
+    match update_rec now x b1 with
+    | Some (b2, u) => (set_map k (aset key b2 m) c1, ft, Some (u, false))
+    | None => (set_map k (aset key (x :: b1) m) c1, ft, Some (x, true))
+    end.
+
 Definition add_or_update (now : N) (fu ok : bool) (x : crec) (c : bcache)
   : bcache * list N * option (crec * bool) :=
   match kind_of (c_ty x) with
   | KNone => (c, [], None)
-  | k =>
-    (* the reverse subtype map: only for PTR of a message that is for us *)
-    let c1 := if (c_ty x =? ty_PTR) && fu && ok && has_subtype (c_name x) && negb (ahas (c_target x) (bc_sub c))
-              then set_sub (bc_sub c ++ [(c_target x, c_name x)]) c else c in
-    let key := match k with KAddr => lower (c_name x) | _ => c_name x end in
-    let m := get_map k c1 in
-    let b := bucket m key in
-    let refused := match b with [] => negb fu | _ => false end || negb ok in
-    if refused then (set_map k (if ahas key m then m else m ++ [(key, [])]) c1, [], None)
-    else
-      let b1 := if c_flush x then map (flush_rec now x) b else b in
-      let ft := if c_flush x then map (fun _ => hp_flush_new_expire now) (filter (should_flush now x) b) else [] in
-      match update_rec now x b1 with
-      | Some (b2, u) => (set_map k (aset key b2 m) c1, ft, Some (u, false))
-      | None => (set_map k (aset key (x :: b1) m) c1, ft, Some (x, true))
-      end
+  | k => aou_kind k now fu ok x c
   end.
 
 (* ---- resolve_updated_instances / add_pending_resolve ------------------------------------------- *)
 Definition add_timer (t : N) (s : bst) : bst :=
   mkB (b_cache s) (b_queriers s) (b_resolvers s) (b_retr s) (b_timers s ++ [t]) (b_pending s) (b_resolved s)
-      (b_next_ip s) (b_ip_interval s).
+      (b_next_ip s) (b_ip_interval s) (b_excess s).
 Definition add_retr (t : N) (c : rcmd) (s : bst) : bst :=
   mkB (b_cache s) (b_queriers s) (b_resolvers s) (b_retr s ++ [(t, c)]) (b_timers s ++ [t]) (b_pending s)
-      (b_resolved s) (b_next_ip s) (b_ip_interval s).
+      (b_resolved s) (b_next_ip s) (b_ip_interval s) (b_excess s).
 Definition set_cache (c : bcache) (s : bst) : bst :=
   mkB c (b_queriers s) (b_resolvers s) (b_retr s) (b_timers s) (b_pending s) (b_resolved s)
-      (b_next_ip s) (b_ip_interval s).
+      (b_next_ip s) (b_ip_interval s) (b_excess s).
 Definition set_sets (p r : list name) (s : bst) : bst :=
-  mkB (b_cache s) (b_queriers s) (b_resolvers s) (b_retr s) (b_timers s) p r (b_next_ip s) (b_ip_interval s).
+  mkB (b_cache s) (b_queriers s) (b_resolvers s) (b_retr s) (b_timers s) p r (b_next_ip s) (b_ip_interval s) (b_excess s).
 
 Definition add_pending (now : N) (s : bst) (inst : name) : bst :=
   if mem inst (b_pending s) then s
@@ -288,21 +294,24 @@ Fixpoint for_us_scan (q : list name) (res : list (name * option N)) (answers : l
 Definition is_for_us (s : bst) (m : bmsg) : bool :=
   for_us_scan (b_queriers s) (b_resolvers s) (filter br_ans (bm_recs m)) true.
 
-(* one record of a response: cache, timers, the change it causes (type, name) *)
+(* one record of a response: cache, timers, the change it causes (type, name), and the count of
+   records stored although not needed *)
 Definition absorb (pol : policy) (now : N) (fu : bool) (ifx : N) (q : list name) (res : list (name * option N))
-           (acc : bcache * list N * list (N * name)) (r : brec) : bcache * list N * list (N * name) :=
-  let '(c, tm, ch) := acc in
-  let ok := match pol with PCode => true | PNeed => needed now q res c r end in
+           (acc : bcache * list N * list (N * name) * N) (r : brec) : bcache * list N * list (N * name) * N :=
+  let '(c, tm, ch, ex) := acc in
+  let nd := needed now q res c r in
+  let ok := match pol with PCode => true | PNeed => nd end in
   let '(c', ft, result) := add_or_update now fu ok (crec_of now ifx r) c in
   match result with
-  | None => (c', tm ++ ft, ch)
-  | Some (u, false) => (c', tm ++ ft ++ [l_expires (c_life u); l_refresh (c_life u)], ch)
+  | None => (c', tm ++ ft, ch, ex)
+  | Some (u, false) => (c', tm ++ ft ++ [l_expires (c_life u); l_refresh (c_life u)], ch, if nd then ex else ex + 1)
   | Some (u, true) =>
+    let ex' := if nd then ex else ex + 1 in
     let base := [l_expires (c_life u); l_refresh (c_life u)] in
     if (c_ty u =? ty_PTR) && hp_ptr_ttl_ok (l_ttl (c_life u)) then
       (c', tm ++ ft ++ base ++ (if mem (c_name u) q then [l_refresh (c_life u)] else []),
-       ch ++ [(c_ty u, c_target u)])
-    else (c', tm ++ ft ++ base, ch ++ [(c_ty u, c_name u)])
+       ch ++ [(c_ty u, c_target u)], ex')
+    else (c', tm ++ ft ++ base, ch ++ [(c_ty u, c_name u)], ex')
   end.
 
 Definition updated_of (c : bcache) (ch : list (N * name)) : list name :=
@@ -311,10 +320,10 @@ Definition updated_of (c : bcache) (ch : list (N * name)) : list name :=
 
 Definition handle_response (pol : policy) (now : N) (s : bst) (m : bmsg) : bst :=
   let fu := is_for_us s m in
-  let '(c, tm, ch) := fold_left (absorb pol now fu (bm_if m) (b_queriers s) (b_resolvers s)) (bm_recs m)
-                                (b_cache s, [], []) in
+  let '(c, tm, ch, ex) := fold_left (absorb pol now fu (bm_if m) (b_queriers s) (b_resolvers s)) (bm_recs m)
+                                    (b_cache s, [], [], b_excess s) in
   let s1 := mkB c (b_queriers s) (b_resolvers s) (b_retr s) (b_timers s ++ tm) (b_pending s) (b_resolved s)
-                (b_next_ip s) (b_ip_interval s) in
+                (b_next_ip s) (b_ip_interval s) ex in
   resolve_updated now s1 (updated_of c ch).
 
 (* ---- commands ------------------------------------------------------------------------------------- *)
@@ -387,7 +396,7 @@ Definition exec_call (now : N) (acc : bst * list sample) (c : bcall) : bst * lis
   | BBrowse ty =>
     let s1 := mkB (b_cache s) (add_name ty (b_queriers s)) (b_resolvers s)
                   (filter (fun x => negb (is_browse_of ty x)) (b_retr s)) (b_timers s) (b_pending s)
-                  (b_resolved s) (b_next_ip s) (b_ip_interval s) in
+                  (b_resolved s) (b_next_ip s) (b_ip_interval s) (b_excess s) in
     (* query_cache_for_service *)
     let insts := map c_target (filter (fun r => negb (r_soon now r)) (bucket (bc_ptr (b_cache s1)) ty)) in
     (browse_send now ty hp_browse_first_delay (settle false now s1 insts), out)
@@ -395,7 +404,7 @@ Definition exec_call (now : N) (acc : bst * list sample) (c : bcall) : bst * lis
     if mem ty (b_queriers s) then
       (mkB (remove_service_type ty (b_cache s)) (del_name ty (b_queriers s)) (b_resolvers s)
            (filter (fun x => negb (is_browse_of ty x)) (b_retr s)) (b_timers s) (b_pending s) (b_resolved s)
-           (b_next_ip s) (b_ip_interval s), out)
+           (b_next_ip s) (b_ip_interval s) (b_excess s), out)
     else (s, out)
   | BResolveHost host timeout =>
     let k := lower host in
@@ -403,19 +412,19 @@ Definition exec_call (now : N) (acc : bst * list sample) (c : bcall) : bst * lis
     let s1 := mkB (b_cache s) (b_queriers s) (aset k dl (b_resolvers s))
                   (filter (fun x => negb (is_host_of k x)) (b_retr s))
                   (b_timers s ++ match dl with Some d => [d] | None => [] end)
-                  (b_pending s) (b_resolved s) (b_next_ip s) (b_ip_interval s) in
+                  (b_pending s) (b_resolved s) (b_next_ip s) (b_ip_interval s) (b_excess s) in
     (host_send now host hp_host_first_delay s1, out)
   | BStopHost host =>
     let k := lower host in
     if ahas k (b_resolvers s) then
       (mkB (b_cache s) (b_queriers s) (adel k (b_resolvers s))
            (filter (fun x => negb (is_host_of k x)) (b_retr s)) (b_timers s) (b_pending s) (b_resolved s)
-           (b_next_ip s) (b_ip_interval s), out)
+           (b_next_ip s) (b_ip_interval s) (b_excess s), out)
     else (s, out)
   | BMetrics => (s, out ++ [metrics s])
   | BSetIpInterval ms =>
     (mkB (b_cache s) (b_queriers s) (b_resolvers s) (b_retr s) (b_timers s) (b_pending s) (b_resolved s)
-         (b_next_ip s) ms, out)
+         (b_next_ip s) ms (b_excess s), out)
   end.
 
 (* ---- due retransmissions ------------------------------------------------------------------------- *)
@@ -443,7 +452,7 @@ Definition do_reruns (now : N) (s : bst) : bst :=
   let keep := filter (fun x => negb (hp_rerun_due now (fst x))) (b_retr s) in
   fold_left (exec_rerun now)
             due (mkB (b_cache s) (b_queriers s) (b_resolvers s) keep (b_timers s) (b_pending s) (b_resolved s)
-                     (b_next_ip s) (b_ip_interval s)).
+                     (b_next_ip s) (b_ip_interval s) (b_excess s)).
 
 (* ---- refresh ------------------------------------------------------------------------------------- *)
 (* updated_refresh_time over a bucket: records advanced, the new refresh times *)
@@ -491,7 +500,7 @@ Definition do_refresh (now : N) (s : bst) : bst :=
                                       | None => m
                                       end) (b_resolvers s) (bc_addr c1) in
   mkB (set_map KAddr addr2 c1) (b_queriers s) (b_resolvers s) (b_retr s) (b_timers s ++ dedup_N tm)
-      (b_pending s) (b_resolved s) (b_next_ip s) (b_ip_interval s).
+      (b_pending s) (b_resolved s) (b_next_ip s) (b_ip_interval s) (b_excess s).
 
 (* ---- eviction -------------------------------------------------------------------------------------- *)
 Definition live_only (now : N) (m : amap) : amap :=
@@ -511,17 +520,17 @@ Definition do_evict (now : N) (s : bst) : bst :=
 (* ---- the rest of the loop ---------------------------------------------------------------------- *)
 Definition pop_timers (now : N) (s : bst) : bst :=
   mkB (b_cache s) (b_queriers s) (b_resolvers s) (b_retr s) (filter (fun v => hp_timer_kept v now) (b_timers s))
-      (b_pending s) (b_resolved s) (b_next_ip s) (b_ip_interval s).
+      (b_pending s) (b_resolved s) (b_next_ip s) (b_ip_interval s) (b_excess s).
 
 Definition do_timeouts (now : N) (s : bst) : bst :=
   mkB (b_cache s) (b_queriers s)
       (filter (fun kr => match snd kr with Some d => negb (hp_deadline_reached now d) | None => true end) (b_resolvers s))
-      (b_retr s) (b_timers s) (b_pending s) (b_resolved s) (b_next_ip s) (b_ip_interval s).
+      (b_retr s) (b_timers s) (b_pending s) (b_resolved s) (b_next_ip s) (b_ip_interval s) (b_excess s).
 
 Definition ip_check (now : N) (s : bst) : bst :=
   let set_next (n : N) (tm : list N) :=
       mkB (b_cache s) (b_queriers s) (b_resolvers s) (b_retr s) (b_timers s ++ tm) (b_pending s) (b_resolved s)
-          n (b_ip_interval s) in
+          n (b_ip_interval s) (b_excess s) in
   if b_ip_interval s =? 0 then set_next 0 []
   else if b_next_ip s =? 0 then set_next (now + b_ip_interval s) [now + b_ip_interval s]
   else if hp_ip_check_due now (b_next_ip s) then set_next (now + b_ip_interval s) [now + b_ip_interval s]
